@@ -16,18 +16,29 @@
                         (Rust integer fallback); beyond that a debug build panics
                         and a release build wraps.  No package can hold 2^31
                         functions, so the hypothesis is not a restriction in practice.
+     `aggregate_count`  the same by the NUMBER of rejecting blocks: `Err` iff it is
+                        positive, for every number; `aggregate_every_count`: every
+                        number is realised (`a` accepting + `n` rejecting blocks).
   T1 `discovery_exact`  for every package whose declared names are identifiers
                         (explicit predicate; `#`/`.` are not XID_Continue): the key
                         list `get_tests` maps over is a permutation of the test
                         blocks of all modules (each once) and EQUALS the sorted
                         list of their keys — whatever the hash-map order.
+     `discovery_runs`   the rest of `get_tests` (strip_prefix, get_function look-up,
+                        unwraps): no panic, one handle per block of every module at
+                        every depth, each the table's entry of its key;
+     `run_package_truthful`  `run_tests` on such a package: every block once, in
+                        sorted key order, `Ok` iff every declared verdict is accept.
   T3 `no_shadow_*`      `fn x`/`test x` occupy different keys (coexist); a module
                         declares without error iff its keys are distinct, two
                         tests (or two functions) of one name are an error; no
                         path of identifiers spells the key of a test, so
                         `get_function`/script calls cannot reach one, and
                         `get_function "x"` is the function.
-  T4 `cli_exit_*`       decision table of `cli`: FAILURE exactly for compile error
+  T4 `cli_exit_*`       decision table of `cli` over the exit STATUS (`ExitCode` is a
+                        number, `failed` = status ≠ 0; `cli_exit_test_count`:
+                        `failed` = (rejecting blocks > 0) for every count):
+                        failure exactly for compile error
                         (`check`), compile error or a rejecting test (`test`),
                         compile error or a missing/mistyped entry (`run`); `run`
                         calls the entry exactly once on success and never otherwise.
@@ -193,6 +204,9 @@ def isEntryCall : Event → Bool
 
 @[simp] theorem failed_SUCCESS : ExitCode.SUCCESS.failed = false := rfl
 @[simp] theorem failed_FAILURE : ExitCode.FAILURE.failed = true := rfl
+/-- a literal status (`ExitCode::from(k)`): the proofs below do not depend on WHICH non-zero
+    status a failure exits with -/
+@[simp] theorem failed_ofStatus (n : Nat) : (ExitCode.ofStatus n).failed = (n % 256 != 0) := rfl
 
 /-- `check`: the process reports failure (non-zero status) exactly on a compile error; no
     script code runs. -/
@@ -228,7 +242,7 @@ theorem cli_exit_test (dbg : Bool) (W : World) (hctx : W.hasCtx = false) (file :
     | nil => exact ⟨rfl, rfl⟩
     | cons a l ih => simp [List.filter_cons, evOf, isRanTest, isEntryCall] at ih ⊢
   rcases res with ⟨⟨⟩⟩ | ⟨⟨⟩⟩
-  · refine ⟨.SUCCESS, _, rfl, ?_, ?_, ?_⟩
+  · refine ⟨_, _, rfl, ?_, ?_, ?_⟩
     · have := hiff.mp rfl
       simp; exact this
     · rw [List.filter_append, (hflt tests).1]; rfl
@@ -239,9 +253,8 @@ theorem cli_exit_test (dbg : Bool) (W : World) (hctx : W.hasCtx = false) (file :
       · simp only [List.mem_cons, List.mem_nil_iff, or_false] at h
         rcases h with rfl | rfl | rfl | rfl | rfl | rfl <;> rfl
       · simpa using h2 a h
-  · refine ⟨.FAILURE, _, rfl, ?_, ?_, ?_⟩
-    · simp only [failed_FAILURE, true_iff]
-      have : ¬ ∀ t ∈ tests, t.func.info.verdict = .Accept () := fun h => by
+  · refine ⟨_, _, rfl, ?_, ?_, ?_⟩
+    · have : ¬ ∀ t ∈ tests, t.func.info.verdict = .Accept () := fun h => by
         have := hiff.mpr h; cases this
       simpa using this
     · rw [List.filter_append, (hflt tests).1]; rfl
@@ -295,8 +308,7 @@ theorem cli_exit_run (dbg : Bool) (W : World) (hctx : W.hasCtx = false) (file : 
   all_goals first | exact ⟨_, _, ⟨rfl, rfl⟩, rfl, by simp [isEntryCall], by simp [isRanTest]⟩ | skip
   cases hg : get_function tb entrySig function with
   | Err e =>
-    refine ⟨.FAILURE, [Event.stage 0, Event.stage 1, Event.stage 2, Event.stage 3, Event.stage 4, Event.stage 5], ?_, ?_, ?_, ?_⟩
-    · simp [RResult_map_err]
+    refine ⟨_, [Event.stage 0, Event.stage 1, Event.stage 2, Event.stage 3, Event.stage 4, Event.stage 5], rfl, ?_, ?_, ?_⟩
     · simp
     · simp [isEntryCall]
     · simp [isRanTest]
@@ -308,9 +320,8 @@ theorem cli_exit_run (dbg : Bool) (W : World) (hctx : W.hasCtx = false) (file : 
       | some i =>
         by_cases hs : i.sig = entrySig <;> simp [hf, hs] at hg
         rw [← hg]
-    refine ⟨.SUCCESS, [Event.stage 0, Event.stage 1, Event.stage 2, Event.stage 3, Event.stage 4, Event.stage 5,
-      Event.calledEntry f.key], ?_, ?_, ?_, ?_⟩
-    · simp [RResult_map_err, World.call]
+    refine ⟨_, [Event.stage 0, Event.stage 1, Event.stage 2, Event.stage 3, Event.stage 4, Event.stage 5,
+      Event.calledEntry f.key], rfl, ?_, ?_, ?_⟩
     · simp
     · simp [isEntryCall, hk, List.filter_cons]
     · simp [isRanTest]
